@@ -1,2 +1,131 @@
-use vkit::Ctx;
-pub fn run(_ctx: &mut Ctx) {}
+//! oracle-of-the-oracle self tests: the trusted base (double-double, jets, cone predicates,
+//! refla eigen/SVD/Cholesky used by the BLAS stubs) is checked against closed forms and
+//! algebraic identities before any verdict is trusted.
+use serde_json::json;
+use vkit::cones::{self as vc, ConeT};
+use vkit::jet::{Deriv, Jet3};
+use vkit::{Ctx, Rng, DD};
+
+fn expect(ctx: &mut Ctx, name: &str, ok: bool, detail: serde_json::Value) {
+    ctx.eval(1);
+    ctx.nontrivial_n(1);
+    if !ok {
+        ctx.violation(name, name, "selftest", 0, detail);
+    }
+}
+
+pub fn run(ctx: &mut Ctx) {
+    if ctx.scale == 0.0 {
+        return; // build-only invocation
+    }
+    let mut rng = Rng::for_case(ctx.seed, "selftest", 0);
+    // double-double
+    for _ in 0..2000 {
+        let (a, b) = (rng.logmag(-8.0, 8.0), rng.logmag(-8.0, 8.0));
+        let (x, y) = (DD::new(a), DD::new(b));
+        let e1 = ((x * y) / y - x).abs().f() / a.abs();
+        let e2 = ((x + y) - y - x).abs().f() / a.abs().max(b.abs());
+        expect(ctx, "dd:mul_div", e1 < 1e-30, json!({"a": a, "b": b, "err": e1}));
+        expect(ctx, "dd:add_sub", e2 < 1e-30, json!({"a": a, "b": b, "err": e2}));
+        let p = DD::new(a.abs());
+        let r = (p.ln().exp() - p).abs().f() / a.abs();
+        expect(ctx, "dd:exp_ln", r < 1e-28, json!({"a": a, "err": r}));
+        let s = p.sqrt();
+        expect(ctx, "dd:sqrt", ((s * s - p).abs().f() / a.abs()) < 1e-30, json!({"a": a}));
+    }
+    // jets against closed-form derivatives
+    for _ in 0..300 {
+        let (x, y) = (rng.range(0.2, 3.0), rng.range(0.2, 3.0));
+        let f = |v: &[Jet3]| (v[0] * v[1]).ln() * v[0].powf(1.5) + (v[0] / v[1]).exp();
+        let d = Deriv { f: &f, x: vec![x, y] };
+        let g = d.gradient();
+        let gx = 1.5 * x.powf(0.5) * (x * y).ln() + x.powf(0.5) + (x / y).exp() / y;
+        let gy = x.powf(1.5) / y - (x / y).exp() * x / (y * y);
+        expect(ctx, "jet:gradient", (g[0] - gx).abs() < 1e-12 * gx.abs().max(1.0) && (g[1] - gy).abs() < 1e-12 * gy.abs().max(1.0), json!({"x": x, "y": y, "got": g, "want": [gx, gy]}));
+        let h = d.hessian();
+        let hxy = x.powf(0.5) * 1.5 / y - (x / y).exp() / (y * y) - (x / y).exp() * x / (y * y * y);
+        expect(ctx, "jet:hessian_xy", (h[1] - hxy).abs() < 1e-11 * hxy.abs().max(1.0) && h[1] == h[2], json!({"got": h[1], "want": hxy}));
+        // third derivative of x^3 y: T[e_x,e_x,.] = (6xy, 3x^2)... contract with u=v=e_x
+        let c = |v: &[Jet3]| v[0] * v[0] * v[0] * v[1];
+        let t = Deriv { f: &c, x: vec![x, y] }.third_contract(&[1.0, 0.0], &[1.0, 0.0]);
+        expect(ctx, "jet:third", (t[0] - 6.0 * y).abs() < 1e-12 && (t[1] - 6.0 * x).abs() < 1e-12, json!({"got": t, "want": [6.0 * y, 6.0 * x]}));
+    }
+    // cone predicates on known points
+    let pts: Vec<(ConeT, Vec<f64>, bool, bool)> = vec![
+        (ConeT::NonnegativeConeT(3), vec![1.0, 2.0, 0.5], false, true),
+        (ConeT::NonnegativeConeT(3), vec![1.0, -1e-9, 0.5], false, false),
+        (ConeT::SecondOrderConeT(3), vec![5.0, 3.0, 3.9], false, true),
+        (ConeT::SecondOrderConeT(3), vec![5.0, 3.0, 4.1], false, false),
+        (ConeT::ExponentialConeT(), vec![0.0, 1.0, 1.1], false, true),   // y e^{x/y} = 1 <= 1.1
+        (ConeT::ExponentialConeT(), vec![0.5, 1.0, 1.6], false, false),  // e^{.5}=1.6487 > 1.6
+        (ConeT::ExponentialConeT(), vec![-1.0, 1.0, 1.0], true, true),   // -u e^{v/u-1} = e^{-2} <= 1
+        (ConeT::ExponentialConeT(), vec![-1.0, -3.0, 1.0], true, false), // e^{3-1} > 1
+        (ConeT::PowerConeT(0.3), vec![1.0, 1.0, 0.99], false, true),
+        (ConeT::PowerConeT(0.3), vec![1.0, 1.0, -1.01], false, false),
+        (ConeT::PowerConeT(0.5), vec![0.5, 0.5, 0.99], true, true), // (u/a)^a (v/(1-a))^(1-a) = 1
+        (ConeT::PowerConeT(0.5), vec![0.5, 0.5, 1.01], true, false),
+        (ConeT::GenPowerConeT(vec![0.25, 0.75], 2), vec![16.0, 1.0, 1.2, 1.5], false, true), // 2*1 =2 >= 1.92
+        (ConeT::GenPowerConeT(vec![0.25, 0.75], 2), vec![16.0, 1.0, 1.5, 1.5], false, false),
+    ];
+    for (c, v, dual, inside) in pts {
+        let (m, _) = vc::margin(&c, &v, dual);
+        expect(ctx, "cones:known_points", (m > 0.0) == inside, json!({"cone": vkit::problem::cones_json(&[c.clone()]), "point": v, "dual": dual, "margin": m, "inside": inside}));
+    }
+    #[cfg(feature = "sdp")]
+    {
+        let m = [2.0, 1.0, 1.0, 2.0];
+        let sv = vc::mat_to_svec(2, &m);
+        expect(ctx, "cones:psd", vc::margin(&ConeT::PSDTriangleConeT(2), &sv, false).0 > 0.99, json!({"svec": sv}));
+        let m = [1.0, 2.0, 2.0, 1.0];
+        let sv = vc::mat_to_svec(2, &m);
+        expect(ctx, "cones:psd", vc::margin(&ConeT::PSDTriangleConeT(2), &sv, false).0 < -0.99, json!({"svec": sv}));
+    }
+    // interior samplers really are interior, for every kind, primal and dual
+    for _ in 0..3000 {
+        let o = vkit::gen::GenOpts { kinds: vkit::gen::all_kinds(), allow_empty_cones: false, ..Default::default() };
+        let k = *rng.choose(&o.kinds);
+        if let Some(c) = vkit::gen::random_cone(&mut rng, k, 20, &o) {
+            if vc::cone_dim(&c) == 0 || matches!(c, ConeT::ZeroConeT(_)) {
+                continue;
+            }
+            for dual in [false, true] {
+                let depth = *rng.choose(&[1.0, 1e-3, 1e-6]);
+                let mag = rng.logpos(-3.0, 3.0);
+                let v = vc::sample_interior(&c, &mut rng, dual, mag, depth);
+                let (m, s) = vc::margin(&c, &v, dual);
+                expect(ctx, "cones:sampler_interior", m > 0.0 && m / s > 1e-9, json!({"cone": vkit::problem::cones_json(&[c.clone()]), "dual": dual, "point": v, "margin": m}));
+            }
+        }
+    }
+    // refla: eigen / SVD / Cholesky identities on random matrices (also run as `cargo test -p refla`)
+    for trial in 0..300 {
+        let n = 1 + trial % 8;
+        let mut a = vec![0.0; n * n];
+        for j in 0..n {
+            for i in 0..=j {
+                let v = rng.normal();
+                a[i + j * n] = v;
+                a[j + i * n] = v;
+            }
+        }
+        let (w, v) = refla::jacobi_eig_sym(n, &a);
+        let mut worst = 0.0f64;
+        for j in 0..n {
+            for i in 0..n {
+                let av: f64 = (0..n).map(|k| a[i + k * n] * v[k + j * n]).sum();
+                worst = worst.max((av - w[j] * v[i + j * n]).abs());
+            }
+        }
+        expect(ctx, "refla:eig", worst < 1e-12 * n as f64, json!({"n": n, "residual": worst}));
+        let (s, u, vt) = refla::jacobi_svd(n, n, &a);
+        let mut worst = 0.0f64;
+        for j in 0..n {
+            for i in 0..n {
+                let r: f64 = (0..n).map(|l| u[i + l * n] * s[l] * vt[l + j * n]).sum();
+                worst = worst.max((r - a[i + j * n]).abs());
+            }
+        }
+        expect(ctx, "refla:svd", worst < 1e-12 * n as f64, json!({"n": n, "residual": worst}));
+    }
+    ctx.sample(json!({"what": "double-double identities, jet derivatives vs closed forms, cone predicates on known points, interior samplers, refla eig/svd identities"}));
+}
